@@ -149,7 +149,24 @@ func checkExact(wants []want, got []*claircore.Vulnerability, extra func(*clairc
 	sort.Strings(keys)
 	for _, k := range keys {
 		if exp[k] != act[k] {
-			return fmt.Sprintf("stated %d time(s), returned %d time(s): %s", exp[k], act[k], k)
+			msg := fmt.Sprintf("stated %d time(s), returned %d time(s): %s", exp[k], act[k], k)
+			// name the counterpart that differs, if one shares identifier and package
+			pre := k
+			if i := strings.Index(k, " fixed="); i > 0 {
+				pre = k[:i]
+			}
+			other := exp
+			what := "stated instead"
+			if exp[k] > act[k] {
+				other, what = act, "returned instead"
+			}
+			for _, k2 := range keys {
+				if k2 != k && strings.HasPrefix(k2, pre) && exp[k2] != act[k2] && other[k2] > 0 {
+					msg += fmt.Sprintf(" (%s: %s)", what, k2)
+					break
+				}
+			}
+			return msg
 		}
 	}
 	return ""
@@ -290,6 +307,7 @@ func Run(cfg hx.Config) error {
 	runAws(r, g, cfg)
 	runOval(r, g, cfg)
 	runOsv(r, g, cfg)
+	runVex(r, g, cfg)
 	return r.Close()
 }
 
